@@ -7,6 +7,7 @@ exit 2  undecided (engine could not decide and nothing in the baseline regressed
 exit 3  checker crash
 """
 import argparse
+import re
 import json
 import os
 import subprocess
@@ -138,7 +139,7 @@ def run_check(pid, tier="quick", update_baseline=False, seed=0, verbose=False):
         known_failing = set(eng.known)
         with open(base_path, "w") as f:
             json.dump({"property": pid,
-                       "obligations": sorted(g for g, s in gstatus.items() if s == "proved"),
+                       "obligations": sorted(g for g, s in gstatus.items() if s == "proved" and not re.search(r"#path\d+\.", g)),
                        "known_failing": sorted(g for g in gstatus if g in known_failing)}, f, indent=1)
     baseline = load_json(base_path, {"obligations": [], "known_failing": []})
     base_set = set(baseline.get("obligations", []))
